@@ -55,9 +55,13 @@ class FaultyStream(io.BufferedIOBase):
         return True
 
     def tell(self):
+        if getattr(self, "_dead", False):
+            raise OSError(5, "Input/output error (the device is gone)")
         return self._p
 
     def seek(self, off, whence=0):
+        if getattr(self, "_dead", False):
+            raise OSError(5, "Input/output error (the device is gone)")       # a source that fails for good fails on every call afterwards
         if whence == 0:
             self._p = off
         elif whence == 1:
@@ -78,6 +82,8 @@ class FaultyStream(io.BufferedIOBase):
                 out = self._d[self._p:self._fail]
                 self._p = self._fail
                 return out
+            if self._cid % 2:
+                self._dead = True        # every other faulty source is gone for good: seek() and tell() fail from now on as well
             raise OSError(errno.EIO, "injected read fault")
         out = self._d[self._p:self._p + n]
         self._p += len(out)
@@ -232,6 +238,62 @@ def run_history(py7zr, hist, workdir, *, target="path", filters_by_session=None,
             stale = sum(counter.tries.get(x, 0) - before_failed[x] for x in before_failed)
             trace.append({"e": "ret", "exc": exc, "nfiles": nfiles, "hfiles": hf, "widx": widx, "nsubs": nsubs,
                           "tries": counter.tries.get(c, 0), "stale": stale})
+        elif h["op"] == "writeall":
+            # one writeall() of a real directory tree; py7zr archives it entry by entry through write(): every entry is recorded as a
+            # call of its own (a wrapper on this object's write), so the composite is judged by the same specification actions.
+            # entries[0] is the directory itself; the nested entries sort in the order given.
+            ents = h["entries"]
+            tree = os.path.join(workdir, f"tree_{sess}_{ncalls}")
+            os.makedirs(tree, exist_ok=True)
+            arc_top = re.sub(r"^[a-zA-Z]:/*", "", member_name(ents[0]["n"], 900 + sess * 10 + ncalls))
+            plan = {tree: ["writedir", ents[0]["n"], "none", arc_top, None]}
+            for j, e in enumerate(ents[1:]):
+                fn = f"e{j:02d}"
+                pth = os.path.join(tree, fn)
+                data = None
+                if e["k"] == "writedir":
+                    os.makedirs(pth, exist_ok=True)
+                    FaultyPath._faults[pth] = {"fault": e["fault"], "counter": counter, "cid": 0, "after": 0}
+                else:
+                    data = content_fn(700 + sess * 100 + ncalls * 10 + j)          # distinct contents; the id is given when the entry is reached
+                    with open(pth, "wb") as f:
+                        f.write(data)
+                    FaultyPath._faults[pth] = {"fault": e["fault"], "counter": counter, "cid": 0, "after": 0 if read_kmode == "zero" else len(data) // 2}
+                plan[pth] = [e["k"], e["n"], e["fault"], arc_top + "/" + fn, data]
+            inner = z.write
+            state = {"ncalls": ncalls}
+
+            def logged_write(file, arcname=None, _inner=inner):
+                k2, n2, fault2, arc2, data2 = plan.get(str(file), ["write", 0, "none", str(arcname), None])
+                state["ncalls"] += 1
+                c2 = sess * 10 + state["ncalls"]                      # numbered like every other call of the session
+                if data2 is not None:
+                    contents[c2] = data2
+                names[(n2, c2)] = arc2
+                if str(file) in FaultyPath._faults:
+                    FaultyPath._faults[str(file)]["cid"] = c2
+                trace.append({"e": "call", "k": k2, "n": n2, "fault": fault2})
+                before = {x: counter.tries.get(x, 0) for x in failed}
+                exc2 = "none"
+                try:
+                    return _inner(file, arcname)
+                except Exception as e2:  # noqa
+                    exc2 = type(e2).__name__
+                    failed.add(c2)
+                    raise
+                finally:
+                    nf, hf2, wi, ns = projection(z)
+                    trace.append({"e": "ret", "exc": exc2, "nfiles": nf, "hfiles": hf2, "widx": wi, "nsubs": ns, "tries": counter.tries.get(c2, 0),
+                                  "stale": sum(counter.tries.get(x, 0) - before[x] for x in before)})
+
+            z.write = logged_write
+            try:
+                z.writeall(FaultyPath(tree), arc_top)
+            except Exception:  # noqa
+                pass
+            finally:
+                del z.write
+                ncalls = state["ncalls"]
         elif h["op"] == "close":
             cexc = "none"
             try:
